@@ -55,6 +55,14 @@ ApplyRemId(g, v) ==
       r  == Smart(g, n0, n1, t)
   IN [g |-> DelV(r.g, v), panic |-> r.panic]
 
+\* the code takes the two neighbours in storage order; the other order moves a possible pi
+ApplyRemIdAlt(g, v) ==
+  LET n1 == CHOOSE n \in Nbrs(g, v) : TRUE
+      n0 == CHOOSE n \in Nbrs(g, v) : n # n1
+      t  == IF ET(g, v, n0) = ET(g, v, n1) THEN "N" ELSE "H"
+      r  == Smart(g, n0, n1, t)
+  IN [g |-> DelV(r.g, v), panic |-> r.panic]
+
 \* ---------------- color_change(v) ----------------
 CheckCC(g, v) == Exists(g, v) /\ IsZX(g, v)
 ApplyCC(g, v) == OK(ColorChange(g, v))
@@ -238,4 +246,6 @@ Apply(R, g, a) ==
     [] R = "gadget_fusion"  -> ApplyGadgetFusion(g, a[1], a[2])
     [] R = "remove_pair"    -> ApplyRemPair(g, a[1], a[2])
     [] R = "remove_duplicate" -> ApplyRemDup(g, a[1], a[2])
+\* every result the code may produce (storage-order nondeterminism), for refinement checks
+ApplySet(R, g, a) == IF R = "remove_id" THEN {ApplyRemId(g, a[1]), ApplyRemIdAlt(g, a[1])} ELSE {Apply(R, g, a)}
 =============================================================================
